@@ -402,3 +402,36 @@ func VerifPkgSlices() map[string][2]int {
 		"fragmentItagsSeparator":   {len(fragmentItagsSeparator), cap(fragmentItagsSeparator)},
 	}
 }
+
+// VerifErrClass classifies an error the way the harness compares it: nil, conflict, err.
+func VerifErrClass(err error) string {
+	if err == nil {
+		return "nil"
+	}
+	if isConflict(err) {
+		return "conflict"
+	}
+	return "err"
+}
+
+// VerifSnapString renders a snapshot canonically (the Lean driver prints the same format).
+func VerifSnapString(c *Conversation) string {
+	s := VerifSnapshot(c)
+	var ctr, mh, rs []string
+	for _, k := range s.Counters {
+		ctr = append(ctr, fmt.Sprintf("%d:%d:%d:%d", k[0], k[1], k[2], k[3]))
+	}
+	for _, k := range s.MacHistory {
+		mh = append(mh, fmt.Sprintf("%d:%d", k[0], k[1]))
+	}
+	for _, m := range s.Resend {
+		rs = append(rs, vhex(m))
+	}
+	ake := "-"
+	if s.HasAke {
+		ake = fmt.Sprint(s.AkeState)
+	}
+	return fmt.Sprintf("ms=%d ver=%d ws=%d ake=%s smp=%d o=%d t=%d ctr=[%s] mh=[%s] old=%d retx=%d rs=[%s] frag=%d/%d/%d tags=%d/%d ssid=%s srs=%v inj=%d",
+		s.MsgState, s.Version, s.Whitespace, ake, s.SmpState, s.OurKeyID, s.TheirKeyID, strings.Join(ctr, ","), strings.Join(mh, ","),
+		s.OldMACKeys, s.MayRetx, strings.Join(rs, ","), s.FragIndex, s.FragLen, s.FragSize, s.OurTag, s.TheirTag, vhex(s.SSID), s.SentReveal, s.Injections)
+}
